@@ -132,6 +132,45 @@ Proof.
 Qed.
 Print Assumptions C03_frame_partial.
 
+(* ... and for plain applications that declare the exact Content-Length (any
+   position of that header, any spelling that lower-cases to "content-length" and
+   normalises to "Content-Length", a decimal value): the client reads exactly that
+   many bytes, they are the application's bytes, nothing is left over; the
+   connection is kept -- the next request is served -- exactly when the head does
+   not say "Connection: close" (HTTP/1.1: no Connection: close request header and
+   no connection_close verdict; HTTP/1.0: keep-alive asked), and closed exactly
+   when it does. *)
+Theorem C03_frame_length_partial : forall c r status pre clname v post kind chunks hc cl,
+  cfg_clean c ->
+  r_error r = None -> is_file kind = false ->
+  Forall (not_cl py_lower) pre -> Forall (not_cl py_lower) post ->
+  beqb (py_lower clname) (lit "content-length") = true -> py_int v = Some cl ->
+  all_digits v = true -> Z.of_N (dec_value v) = cl -> Z.of_nat (length (concat chunks)) = cl ->
+  plain_fields py_cap (strs_of pre) -> plain_fields py_cap (strs_of post) ->
+  norm_name py_cap clname = lit "Content-Length" ->
+  r_head r = false ->
+  startswith status (lit "1") || startswith status (lit "204") || startswith status (lit "304") = false ->
+  let hs := pre ++ (PStr clname, PStr v) :: post in
+  let res := run_task c r (simple_app status hs kind chunks hc) None in
+  let keep := if beqb (r_version r) (lit "1.1")
+              then negb (beqb (request_connection r) (lit "close") || r_connection_close r)
+              else beqb (request_connection r) (lit "keep-alive") && negb (r_connection_close r) in
+  o_raw res = None ->
+  exists sl fields,
+    parse_one false (wire (o_writes res))
+    = Some (mkResponse sl fields (FLength (dec_value v)) (concat chunks), [])
+    /\ sl = lit "HTTP/" ++ (if beqb (r_version r) (lit "1.1") then lit "1.1" else lit "1.0") ++ [32] ++ status
+    /\ (forall h, In h (strs_of hs) -> In (client_field (norm_field py_cap h)) fields)
+    /\ o_next res = keep /\ o_close res = negb keep
+    /\ (keep = false -> In (client_field f_close) fields)
+    /\ (keep = true -> ~ In (client_field f_close) fields).
+Proof.
+  exact (fun c r status pre clname v post kind chunks hc cl Hc =>
+           frame_len py_cap py_lower py_cap_clean py_cap_connection py_cap_te c Hc r py_cap_cl
+                     status pre clname v post kind chunks hc cl).
+Qed.
+Print Assumptions C03_frame_length_partial.
+
 (* The full statement is false of the faithful model in three classes. *)
 Theorem C03_head_chunked_refuted :
   let res := run_task sample_cfg head_req empty_app None in
